@@ -49,6 +49,12 @@ CHECKS["C18"] = dict(level="exploration",
    technique="scripted-window concurrency scenarios + stress under -race, differential control-vs-cancel oracle, origin-tagged payloads, upstream ground truth",
    design_ref="DESIGN.md §6 C18, notes/scenarios.md")
 
+CHECKS["C19"] = dict(level="exploration",
+   text="The real WebSocket subscription server (execution/subscription: protocol handlers for graphql-transport-ws and legacy graphql-ws, ExecutorEngine, and in wire runs the real websocket.Client over an in-memory net.Conn) runs under the race detector against a scripted transport client and gated scripted executors. Quick enumerates EVERY graphql-transport-ws client word of length <=3 over the protocol alphabet (init, subscribe query/subscription for 2 ids, complete, ping/pong, unknown type, malformed JSON, duplicate id, abrupt close ...) against EVERY engine-event schedule, all length-4 words against a fixed six-schedule family, the legacy protocol one length less, plus seeded racy sequences up to length 12, init time-out cases and wire runs; thorough one length more and 20x the sampled kinds. Every server output trace (messages, close codes, frames on the wire) is judged online by an independent reference protocol state machine that rejects at the first offending event: no operation before a successful init, prescribed 44xx close codes, data then exactly one terminal per started id, nothing for an id after its terminal, no write after / inside the close frame; crashes and wedges are violations.",
+   note="Trusted: the two reference state machines and their stated tolerances (wrong-shape JSON may be ignored, answered with error(id) or closed with 4400), the scripted TransportClient / ExecutorPool / in-memory net.Conn (messages linearised at hand-over, one Write call atomic), gobwas frame encoding on the client side, the Go race detector. Executors are scripted (no real engine behind the server); transport read errors are not injected; legacy protocol not run in wire mode.",
+   technique="exhaustive bounded enumeration of client words x event schedules + seeded racy runs under -race, online trace checking against a reference protocol state machine",
+   design_ref="DESIGN.md §6 C19, Appendix B")
+
 CHECKS["C12"] = dict(level="exploration",
    text="The real resolver's subscription machinery runs under the race detector with a fake source, recording writers (one atomic logical clock, overlap detection) and the verif yield/event hooks: enumerated scripted racing pairs at the yield points (source Complete/Error vs unsubscribe, update in flight vs removal, heartbeat vs removal, flush failure, join vs hook failure, every variant x every injected shutdown position) plus 4000 (quick) / 60000 (thorough) seeded random histories of subscribe / update / complete / error / done / unsubscribe / removeClient / heartbeat / writer faults with perturbation. Every history is judged offline: per subscriber delivered is a subsequence of may(s) in source order, contains must(s), no duplicates, each message equals the solo rendering, no writer call after the sub.done event, no overlapping writer calls, at most one terminal call, exactly one sub.done.",
    note="Trusted: the verif yield/event hooks, the recording writer and its single logical clock, the fake source, the reference filter semantics and projections expected by construction (cross-checked against a private Resolvable), updater.Subscriptions() for attachment.",
